@@ -53,6 +53,10 @@ def TDTreeS(d=2):
     if d > 0:
         fields["left"] = Lazy(lambda: TDTreeS(d - 1))
     return Struct(M.TDTree, fields, kind="typeddict", optional=tuple(fields), name="TDTree")
+def LedgerS(): return Struct(M.Ledger, {"balance": DecimalS(), "share": FractionS(), "wait": TimeDeltaS(), "tags": VarTuple(Str(), 1)})
+def SChildS(): return Struct(M.SChild, {"ident": Str(), "rank": Int(), "label": Str()})
+def WindowS(): return Struct(M.Window, {"span": Struct(M.Span, {"lo": Int(), "hi": Int()}), "size": Int()})
+def NamedRecordS(): return Struct(M.NamedRecord, {"id": Int(), "created": DateS(), "name": Str()})
 def PermS(): return Picked(M.Perm, [M.Perm.R, M.Perm.R | M.Perm.X, M.Perm(0), M.Perm.R | M.Perm.W | M.Perm.X], name="Perm(Flag)")
 def ModeS(): return Picked(M.Mode, [M.Mode.READ, M.Mode.READ | M.Mode.WRITE, M.Mode(0)], name="Mode(IntFlag)")
 def SlugS(): return Picked(M.Slug, [M.Slug("abc"), M.Slug(""), M.Slug("1")], name="Slug(str)")
@@ -214,7 +218,7 @@ def containers1():
 
 def structured():
     return [PointS(), SPointS(), FPointS(), KPointS(), LineS(), BagS(), MixedS(), NTS_(), NTSS(), TDS(), TDNS(),
-            TDChildS(), TDReqS(), PlainS(), SlottedS(), SubNTS(), PlainNTS(), WithCVS(), JobS(), TDOptS(), ExtOrderS()]
+            TDChildS(), TDReqS(), PlainS(), SlottedS(), SubNTS(), PlainNTS(), WithCVS(), JobS(), TDOptS(), ExtOrderS(), LedgerS(), SChildS(), WindowS(), NamedRecordS()]
 
 
 def wrappers():
@@ -266,7 +270,7 @@ CORE = {
     "Tree", "Chain", "DNode", "Ping", "Dept", "NTree", "TDNode", "Item", "Cyc", "Ind",
     "list[list[int]]", "dict[str,list[int]]", "list[Point]", "dict[str,Point]", "list[Optional[int]]",
     "tuple[Point,list[int]]", "Optional[Point]", "list[date]", "list[TD]", "list[tuple[int,str]]",
-    "Union[int,str]", "Union[Point,int]", "list[Union[int,str]]", "PlainNT", "None|date", "None|SPoint", "NFHolder", "Swap", "Kind", "bytearray", "MutableSet[int]", "str|None", "bool|None", "WithCV", "Gain", "Perm(Flag)", "Mode(IntFlag)", "Slug(str)", "Job", "TDOpt", "ExtOrder(b<-a)", "TDTree", "Union[str,None,int]", "Team", "Literal['2', 2, 'null', None]",
+    "Union[int,str]", "Union[Point,int]", "list[Union[int,str]]", "PlainNT", "None|date", "None|SPoint", "NFHolder", "Swap", "Kind", "bytearray", "MutableSet[int]", "str|None", "bool|None", "WithCV", "Gain", "Perm(Flag)", "Mode(IntFlag)", "Slug(str)", "Job", "TDOpt", "ExtOrder(b<-a)", "TDTree", "Union[str,None,int]", "Team", "Ledger", "SChild", "Window", "NamedRecord", "Literal['2', 2, 'null', None]",
 }
 
 
